@@ -47,7 +47,8 @@ fill3 = Unit(
              ("counter-advances-by-one", "default_transaction['count'] == old(default_transaction)['count'] + 1"),
              ("insertion-is-an-empty-range", "implies(tup[0] is None, result[0].start == result[0].end)"),
              ("deletion-is-the-empty-text", "implies(tup[1] is None, is_empty_text(result[1]))")],
-    calls={"core.get_charnos": ("contract", get_charnos_pure), "<isinstance>": _isinstance}, records=RECORDS, props=("C10", "C06"), attrs={"start": "int", "end": "int"}, ghost={"is_empty_text": g_is_empty_text},
+    calls={"core.get_charnos": ("contract", get_charnos_pure), "<isinstance>": _isinstance, "core.unparse": ("uf", "str"), "textwrap.indent": ("uf", "str")}, records=RECORDS, props=("C10", "C06"),
+    attrs={"start": "int", "end": "int", "col_offset": "int"}, ghost={"is_empty_text": g_is_empty_text},
 )
 
 fill2 = Unit(
@@ -56,7 +57,8 @@ fill2 = Unit(
     requires=[("counter-exists", "'count' in default_transaction"), ("before-is-a-node-or-none", "tup[0] is None or isinstance(tup[0], ast.AST)")],
     ensures=[("implicit-transaction-is-the-advanced-counter", "result[2] == old(default_transaction)['count'] + 1 and default_transaction['count'] == result[2]"),
              ("insertion-is-an-empty-range", "implies(tup[0] is None, result[0].start == result[0].end)")],
-    calls={"core.get_charnos": ("contract", get_charnos_pure), "<isinstance>": _isinstance}, records=RECORDS, props=("C10", "C06"), attrs={"start": "int", "end": "int"}, ghost={"is_empty_text": g_is_empty_text},
+    calls={"core.get_charnos": ("contract", get_charnos_pure), "<isinstance>": _isinstance, "core.unparse": ("uf", "str"), "textwrap.indent": ("uf", "str")}, records=RECORDS, props=("C10", "C06"),
+    attrs={"start": "int", "end": "int", "col_offset": "int"}, ghost={"is_empty_text": g_is_empty_text},
 )
 
 UNITS = [fill3, fill2]
